@@ -208,7 +208,6 @@ package hls
 //@   ensures plOK(sg.playlist)
 //@   ensures sg.current != nil ==> sg.current.file != nil && sg.current.sequenceNo == sg.sequenceNo
 //@   ensures sg.current != nil ==> nextIs(sg.playlist, sg.sequenceNo)
-//@   ensures old(sg.current) == nil ==> sg.current == nil && sg.sequenceNo == old(sg.sequenceNo)
 
 // Close drops the open segment; the generator ignores every later frame
 //@ func (sg *SegmentGenerator) Close() (err error)
